@@ -33,6 +33,9 @@ pub mod knobs {
         /// A looked-up input that is not in its table contributes no multiplicity instead of
         /// panicking.
         pub lenient_lookups: bool,
+        /// Shift the running Sum/LDC lookup polynomials of every table by a constant chosen so
+        /// that their final value is zero (the honest initial value of the running sum is 0).
+        pub lookup_sum_shift: bool,
     }
 
     std::thread_local! {
@@ -42,6 +45,7 @@ pub mod knobs {
             lenient_quotient: false,
             pow_witness: None,
             lenient_lookups: false,
+            lookup_sum_shift: false,
         }) };
     }
 
